@@ -13,6 +13,14 @@ import (
 
 // sample runs at every quiescent millisecond.
 func (r *Runner) sample() {
+	r.sampleCommit()
+	r.sampleProfile()
+}
+
+// sampleCommit runs at every quiescent point between two delivery rounds
+// (World.Round): every goroutine of every server is blocked, so state, term,
+// commit index and log are one consistent cut.
+func (r *Runner) sampleCommit() {
 	w := r.W
 	for i := range r.ids {
 		in := r.live(i)
@@ -28,17 +36,33 @@ func (r *Runner) sample() {
 		if ci > li {
 			w.ViolateLocked("C05", "R3", "C05/R3/commit-index-above-last-index", "%s reports commit index %d above its last index %d", in.ID(), ci, li)
 		}
+		// C05/R2: a server that was leader of term T at the previous cut and
+		// still is moved its commit index in between: that advance comes from
+		// its own counting of matches, and may only land on an entry of term T.
+		var lt uint64
+		if in.R.State() == raft.Leader {
+			lt = in.R.CurrentTerm()
+		}
+		if ci > st.lastCommit && lt != 0 && lt == st.leaderTerm {
+			d := in.DiskLocked()
+			if l, ok := d.Logs[ci]; ok && l.Term != lt {
+				w.ViolateLocked("C05", "R2", "C05/R2/leader-commits-by-counting-an-entry-of-an-older-term",
+					"%s, leader of term %d, moved its commit index %d -> %d while leader, but entry %d has term %d: no entry of term %d is committed yet; log: %s",
+					in.ID(), lt, st.lastCommit, ci, ci, l.Term, lt, d.LogString())
+			}
+		}
+		st.leaderTerm = lt
 		if ci > st.lastCommit {
 			w.O.CommitRange(in, st.lastCommit+1, ci, fmt.Sprintf("CommitIndex()=%d on %s", ci, in.ID()))
 			st.lastCommit = ci
 		}
 		w.Mu.Unlock()
 	}
-	r.sampleProfile()
 }
 
 type instState struct {
 	lastCommit uint64
+	leaderTerm uint64 // term in which the server was leader at the previous cut (0: was not)
 }
 
 func (r *Runner) perInst(in *sim.Instance) *instState {
